@@ -5,6 +5,7 @@ package main
 
 import (
 	"fmt"
+	"math/big"
 	"go/token"
 	"go/types"
 	"strings"
@@ -52,6 +53,23 @@ func (vc *VC) powApp(a, b Term) Term {
 			return NumMul(NumMul(a, a), a)
 		}
 		if b.R != nil {
+			third := big.NewRat(1, 3)
+			d := new(big.Rat).Sub(b.R, third)
+			if d.Abs(d).Cmp(big.NewRat(1, 1000000000000000)) < 0 && vc.noDefine == 0 {
+				// A-POW: Pow(x, 1/3) is the real cube root (for x > 0: c > 0 and c*c*c = x).
+				// Instantiated per application so the query stays polynomial.
+				key := "cbrt|" + a.E
+				if vc.divCache == nil {
+					vc.divCache = map[string]Term{}
+				}
+				if c, ok := vc.divCache[key]; ok {
+					return c
+				}
+				c := vc.freshTerm("cbrt", SReal)
+				vc.decl(fmt.Sprintf("(assert (=> (> %s 0.0) (and (> %s 0.0) (= (* %s %s %s) %s)))) ;anchor=%s", a.E, c.E, c.E, c.E, c.E, a.E, c.E))
+				vc.divCache[key] = c
+				return c
+			}
 			return vc.ufApp("pow_"+sanitize(b.R.RatString()), s, a)
 		}
 	}
